@@ -73,7 +73,9 @@ func TestVerifRace_C19_conc(t *testing.T) {
 	c.AddCommonQueryParam("q1", "w1").SetCommonFormData(map[string]string{"QQf1": "QQg1"}).SetCommonPathParam("p1", "y1")
 	c.SetCommonCookies(&http.Cookie{Name: "ck101", Value: "1"})
 	c.OnBeforeRequest(func(*Client, *Request) error { return nil }).OnAfterResponse(func(*Client, *Response) error { return nil })
-	c.WrapRoundTripFunc(func(rt RoundTripper) RoundTripFunc { return func(r *Request) (*Response, error) { return rt.RoundTrip(r) } })
+	c.WrapRoundTripFunc(func(rt RoundTripper) RoundTripFunc {
+		return func(r *Request) (*Response, error) { return rt.RoundTrip(r) }
+	})
 	c.GetTransport().WrapRoundTripFunc(func(rt http.RoundTripper) HttpRoundTripFunc {
 		return func(r *http.Request) (*http.Response, error) { return rt.RoundTrip(r) }
 	})
@@ -84,7 +86,7 @@ func TestVerifRace_C19_conc(t *testing.T) {
 	workers, perWorker, clones := 4, verifh.N(25, 120), verifh.N(12, 60)
 	var wg sync.WaitGroup
 	stop := make(chan struct{})
-	var sent atomic.Int32
+	var sent, nClones atomic.Int32
 	for i := 0; i < workers; i++ {
 		wg.Add(1)
 		go func(i int) {
@@ -112,40 +114,69 @@ func TestVerifRace_C19_conc(t *testing.T) {
 			}
 		}(i)
 	}
-	ptxt, panicked := verifh.Safely(func() {
-		for n := 0; n < clones; n++ {
-			cc := c.Clone()
-			if n%3 == 2 {
-				cc = cc.Clone()
-			}
-			who := fmt.Sprintf("copy%d", n)
-			bn := &c19LockedBuf{}
-			cc.SetCommonHeader("X-Who", who).SetCommonHeader("X-Copy", who).SetCommonHeaderNonCanonical("x-n7", "v2")
-			cc.AddCommonQueryParam("qc", who).AddCommonQueryParam("q1", "w2").SetCommonFormData(map[string]string{"QQfc": who}).SetCommonPathParam("p1", "y2")
-			cc.SetCommonCookies(&http.Cookie{Name: "ck102", Value: "1"})
-			cc.OnBeforeRequest(func(*Client, *Request) error { return nil }).OnAfterResponse(func(*Client, *Response) error { return nil })
-			cc.WrapRoundTripFunc(func(rt RoundTripper) RoundTripFunc { return func(r *Request) (*Response, error) { return rt.RoundTrip(r) } })
-			cc.GetTransport().WrapRoundTripFunc(func(rt http.RoundTripper) HttpRoundTripFunc {
-				return func(r *http.Request) (*http.Response, error) { return rt.RoundTrip(r) }
-			})
-			cc.SetCommonRetryCount(0).AddCommonRetryCondition(func(resp *Response, err error) bool { return false }).AddCommonRetryHook(func(*Response, error) {})
-			cc.EnableDumpAllTo(bn).EnableDumpAllWithoutResponseBody()
-			cc.SetCerts(c19TLSCert(4)).SetRootCertFromString(w.rootPEM[2])
-			cc.SetTLSClientConfig(&tls.Config{InsecureSkipVerify: true, NextProtos: []string{"h2", "http/1.1"}})
-			for _, url := range []string{h1.URL, h2.URL} {
-				if _, err := cc.R().Post(url + "/s1/{p1}"); err != nil {
-					note("request of %s failed: %v", who, err)
+	// everything below runs under a watchdog: a request blocked on a dump queue nobody reads never returns
+	var ptxt string
+	var panicked bool
+	mainDone := make(chan struct{})
+	go func() {
+		defer close(mainDone)
+		ptxt, panicked = verifh.Safely(func() {
+			for n := 0; n < clones; n++ {
+				cc := c.Clone()
+				if n%3 == 2 {
+					cc = cc.Clone()
 				}
+				who := fmt.Sprintf("copy%d", n)
+				bn := &c19LockedBuf{}
+				cc.SetCommonHeader("X-Who", who).SetCommonHeader("X-Copy", who).SetCommonHeaderNonCanonical("x-n7", "v2")
+				cc.AddCommonQueryParam("qc", who).AddCommonQueryParam("q1", "w2").SetCommonFormData(map[string]string{"QQfc": who}).SetCommonPathParam("p1", "y2")
+				cc.SetCommonCookies(&http.Cookie{Name: "ck102", Value: "1"})
+				cc.OnBeforeRequest(func(*Client, *Request) error { return nil }).OnAfterResponse(func(*Client, *Response) error { return nil })
+				cc.WrapRoundTripFunc(func(rt RoundTripper) RoundTripFunc {
+					return func(r *Request) (*Response, error) { return rt.RoundTrip(r) }
+				})
+				cc.GetTransport().WrapRoundTripFunc(func(rt http.RoundTripper) HttpRoundTripFunc {
+					return func(r *http.Request) (*http.Response, error) { return rt.RoundTrip(r) }
+				})
+				cc.SetCommonRetryCount(0).AddCommonRetryCondition(func(resp *Response, err error) bool { return false }).AddCommonRetryHook(func(*Response, error) {})
+				cc.EnableDumpAllTo(bn).EnableDumpAllWithoutResponseBody()
+				cc.SetCerts(c19TLSCert(4)).SetRootCertFromString(w.rootPEM[2])
+				cc.SetTLSClientConfig(&tls.Config{InsecureSkipVerify: true, NextProtos: []string{"h2", "http/1.1"}})
+				for _, url := range []string{h1.URL, h2.URL} {
+					if _, err := cc.R().Post(url + "/s1/{p1}"); err != nil {
+						note("request of %s failed: %v", who, err)
+					}
+				}
+				if n%4 == 3 {
+					c19DisableDump(cc)
+				}
+				cc.Transport.CloseIdleConnections()
+				nClones.Add(1)
 			}
-			if n%4 == 3 {
-				c19DisableDump(cc)
-			}
-			cc.Transport.CloseIdleConnections()
-			s.Count("clone")
-		}
-	})
+		})
+	}()
+	hung := ""
+	select {
+	case <-mainDone:
+	case <-time.After(90 * time.Second):
+		hung = "the main goroutine (Clone, setters and requests on the copies) did not finish within 90 s"
+	}
 	close(stop)
-	wg.Wait()
+	workersDone := make(chan struct{})
+	go func() { wg.Wait(); close(workersDone) }()
+	select {
+	case <-workersDone:
+	case <-time.After(30 * time.Second):
+		hung += " the requests of the original did not return within 30 s"
+	}
+	for i := int32(0); i < nClones.Load(); i++ {
+		s.Count("clone")
+	}
+	if hung != "" {
+		s.Observe("conc/nothing-hangs", false, "", true, "clones with setters and requests while requests of the original are in flight", hung)
+		s.Finish()
+		return
+	}
 	c19DisableDump(c)
 	c.Transport.CloseIdleConnections()
 	if panicked {
